@@ -56,6 +56,7 @@ ALL = [
     ('P37-text-after-a-phonetic-guide-in-the-same-run', ['C07'], lambda: docx(p(r('«1»before '), '<w:r><w:rPr><w:i/></w:rPr><w:t>«2»pre </w:t><w:ruby><w:rubyPr><w:rubyAlign w:val="center"/></w:rubyPr><w:rt><w:r><w:t>«3»kana</w:t></w:r></w:rt><w:rubyBase><w:r><w:t>«4»kanji</w:t></w:r></w:rubyBase></w:ruby><w:t>«5» post</w:t></w:r>', r('«6» after')))),
     # a relationships member that is not well-formed XML: every read raises, and raises again when repeated (no half-filled cache)
     ('P38-relationships-member-not-well-formed', ['C14', 'C15'], lambda: docx(p(r('«1»text')), extra={'word/_rels/footer9.xml.rels': '<Relationships xmlns="x"><Relationship'})),
+    ('P39-display-equation-between-paragraphs-inside-a-comment-range', ['C12'], lambda: docx(p(r('«1»a'), '<w:commentRangeStart w:id="0"/>') + '<m:oMathPara><m:oMath><m:r><m:t>z</m:t></m:r></m:oMath></m:oMathPara>' + p('<w:commentRangeEnd w:id="0"/><w:r><w:commentReference w:id="0"/></w:r>', r('«2»b')) + p(r('«3»c')), comments=COM(0))),
     ('P15-links-different-anchors', ['C10', 'C06'], lambda: docx(p(link('r:id="rId9" w:anchor="a"', r('«1»x')), link('r:id="rId9" w:anchor="b"', r('«2»y'))), docrels=LINK)),
     ('P16-word-word', ['C09'], lambda: docx(p(r('body')), docrels=[('rId2', 'header', 'word/h.xml')], extra={'word/word/h.xml': f'<w:hdr {NS}>' + p(r('head-in-word-word')) + '</w:hdr>'})),
     ('P18-range-end-without-start', ['C13', 'C12'], lambda: docx(p(r('a'), '<w:commentRangeEnd w:id="5"/>', r('b', '<w:b/>')))),
